@@ -14,15 +14,3 @@ Proof. intros Ht Hp. unfold rel_stm. expose_stm. interval with (i_taylor t, i_bi
 Lemma S46 t p : 550 <= t <= 590 -> 100000 <= p <= 1000000 -> rel_stm t p <= 1 / 100.
 Proof. intros Ht Hp. unfold rel_stm. expose_stm. interval with (i_taylor t, i_bisect p, i_depth 14, i_degree 5). Qed.
 
-Lemma S2 t p : 100 <= t <= 150 -> 50000 <= p <= 100000 -> rel_stm t p <= 1 / 100.
-Proof. intros Ht Hp. unfold rel_stm. expose_stm. interval with (i_bisect t, i_bisect p, i_depth 14). Qed.
-
-Lemma S20 t p : 300 <= t <= 350 -> 50000 <= p <= 100000 -> rel_stm t p <= 1 / 100.
-Proof. intros Ht Hp. unfold rel_stm. expose_stm. interval with (i_bisect t, i_bisect p, i_depth 14). Qed.
-
-Lemma S40 t p : 500 <= t <= 550 -> 50000 <= p <= 100000 -> rel_stm t p <= 1 / 100.
-Proof. intros Ht Hp. unfold rel_stm. expose_stm. interval with (i_bisect t, i_bisect p, i_depth 14). Qed.
-
-Lemma S60 t p : 700 <= t <= 750 -> 25000 <= p <= 50000 -> rel_stm t p <= 1 / 100.
-Proof. intros Ht Hp. unfold rel_stm. expose_stm. interval with (i_bisect t, i_bisect p, i_depth 14). Qed.
-
